@@ -24,6 +24,13 @@ theorem bip39_table_facts :
   obtain ⟨wl, h, tok⟩ := bip39_table
   exact ⟨wl, h, tok.hlen, tok.huniq, fun w hw => lowerWord_isWord w (tok.hlower w hw)⟩
 
+/-- the table is sorted: strictly increasing in the left-aligned base-2^21 numbering `encKey` of the words, which
+    for these words (at most eight letters `a`..`z`) is the lexicographic order -/
+theorem bip39_sorted (wl : WordList) (hwl : BIP39? = some wl) :
+    wl.words.Pairwise (fun a b => encKey a < encKey b) := by
+  obtain ⟨wl', h, tok⟩ := bip39_table
+  rw [hwl] at h; cases h; exact tok.hsorted
+
 theorem table_ok (wl : WordList) (hwl : BIP39? = some wl) : TableOK 2048 wl := by
   obtain ⟨wl', h, tok⟩ := bip39_table
   rw [hwl] at h; cases h; exact tok
